@@ -212,7 +212,10 @@ def run(ctx):
         cs = [e for e in case["cut"] if e < n]
         return (" cut=" + ",".join(map(str, cs))) if cs else ""
 
-    for c in range(n_cases):
+    # the last case is FIXED (small corpus): one slot, six primaries — events 0 and 2 are stopped
+    # by the step limit with no track alive and five primaries queued, whatever VERIF_SEED is, so
+    # the coverage guards below never depend on luck
+    for c in range(n_cases + 1):
         # family 0: mock, few slots, more primaries than slots, some events are stopped by a step
         #           limit where no track is alive but primaries are queued, then the state is reset
         # family 1: simple (Compton)      family 2: mock, many slots, no cuts
@@ -226,8 +229,11 @@ def run(ctx):
             prims = ctx.rng.range(2, 10) if prob == "mock" else ctx.rng.range(1, 3)
         seed = ctx.rng.below(10000)
         n_ev = 3 if prob == "mock" else 2
-        base = "run prob=%s slots=%d prims=%d seed=%d" % (prob, slots, prims, seed)
         cut = sorted({e for e in range(40) if famc == 0 and ctx.rng.chance(1, 2)} | ({0} if famc == 0 else set()))
+        if c == n_cases:
+            famc, prob, slots, prims, seed, n_ev = 0, "mock", 1, 6, 3, 4
+            cut = [0, 2] + [e for e in range(4, 40) if e % 2 == 0]
+        base = "run prob=%s slots=%d prims=%d seed=%d" % (prob, slots, prims, seed)
         case = {"base": base, "n_ev": n_ev, "cut": cut, "prob": prob}
         cases.append(case)
 
@@ -243,6 +249,12 @@ def run(ctx):
 
         fresh(n_ev)
         add("one", n_ev, 1, [0] * n_ev, "serial")          # all events after each other on ONE stream
+        if c == n_cases:
+            # events 1 and 3 follow the cut events 0 and 2 on their streams
+            add("thr", n_ev, 2, [0, 0, 1, 1], "threads", " sched=7")
+            add("ser", n_ev, 4, [1, 1, 3, 3], "serial")       # streams 0 and 2 idle
+            add("thr", n_ev, 4, [1, 1, 3, 3], "threads", " calo=1")
+            continue
         # all assignments of the events to 2 streams (and 3 in the thorough tier); these include
         # assignments that leave stream 0 or a middle stream without any event
         for k in ([2] if quick else [2, 3]):
